@@ -32,6 +32,10 @@ type E2ECase struct {
 	PrimeGET  bool      `json:"prime_get"` // for non-GET methods: a storable GET of the same path is stored first
 	Location  bool      `json:"location"`
 	Runtime   bool      `json:"policy_set_at_runtime,omitempty"`
+	// UnstorableFirst: before the three requests the origin answered one GET of the resource with something that
+	// must not be stored ("no-store", "private", "max-age=0", "503", "404"); what it answers afterwards is judged
+	// on its own - an earlier unstorable answer says nothing about later ones
+	UnstorableFirst string `json:"unstorable_answer_first,omitempty"`
 	// StoredEarlier: before the three requests the operator had directives ignored for a while (run-time switch on,
 	// one GET that stores the answer whatever it says, switch off again): the entry from that period is still there
 	StoredEarlier bool `json:"stored_while_directives_were_ignored,omitempty"`
@@ -41,7 +45,7 @@ type E2ECase struct {
 func noBody(st int) bool { return st == 204 || st == 205 || st == 304 }
 
 var subE2E = ev.Register("storable-e2e",
-	"three sequential requests for one resource (method x origin status x freshness header set x cache_policy x backend x transport; unrelated and other-method traffic before the third; optionally an entry for the resource was stored earlier, during a period in which the operator had directives ignored) against an origin whose body version increases with every request it serves; oracle: MUST-NOT-REUSE (non-GET, non-200, forbidding directive, max-age=0, expired) => every request reaches the origin and carries the version produced for it; MUST-REUSE (GET 200 storable with a lifetime >= 5 s) => requests 2 and 3 never reach the origin, are labelled HIT and carry request 1's body; non-trivial = verdict is not EITHER and the header set is not in the repository's tests; distinct by (method,status,header set,flags,backend)",
+	"three sequential requests for one resource (method x origin status x freshness header set x cache_policy x backend x transport; unrelated and other-method traffic before the third; optionally an entry for the resource was stored earlier, during a period in which the operator had directives ignored, or the origin's first answer for the resource was an unstorable one) against an origin whose body version increases with every request it serves; oracle: MUST-NOT-REUSE (non-GET, non-200, forbidding directive, max-age=0, expired) => every request reaches the origin and carries the version produced for it; MUST-REUSE (GET 200 storable with a lifetime >= 5 s) => requests 2 and 3 never reach the origin, are labelled HIT and carry request 1's body; non-trivial = verdict is not EITHER and the header set is not in the repository's tests; distinct by (method,status,header set,flags,backend)",
 	func(c E2ECase, o *ev.Obs) *ev.Failure {
 		var mu sync.Mutex
 		ver := 0
@@ -72,6 +76,14 @@ var subE2E = ev.Register("storable-e2e",
 				e.Commit()
 				w.WriteHeader(416)
 				return
+			}
+			if r.Header.Get("X-Verif-Req") == "before" {
+				switch c.UnstorableFirst {
+				case "503", "404":
+					status, fr = map[string]int{"503": 503, "404": 404}[c.UnstorableFirst], gen.Fresh{}
+				default:
+					status, fr = 200, gen.Fresh{CC: []string{c.UnstorableFirst}}
+				}
 			}
 			if r.Header.Get("X-Verif-Req") == "prime" {
 				status, fr = 200, gen.Fresh{CC: []string{"max-age=600"}}
@@ -123,6 +135,12 @@ var subE2E = ev.Register("storable-e2e",
 			}
 			time.Sleep(5 * time.Millisecond)
 			return nil
+		}
+		if c.UnstorableFirst != "" {
+			o.Class("unstorable-answer-first:" + c.UnstorableFirst)
+			if _, err := env.Via(c.Transport, px.Req{Method: "GET", Host: org.Addr(), Target: "/r", ReqID: "before"}); err != nil {
+				return ev.Failf("store-e2e.harness", "GET before: %v", err)
+			}
 		}
 		if c.StoredEarlier {
 			o.Class("entry-from-a-period-of-ignored-directives")
@@ -308,7 +326,10 @@ func drawE2E(t *rapid.T) E2ECase {
 		c.Fresh = rapid.SampledFrom([]gen.Fresh{{}, {CC: []string{"max-age=60"}}, {CC: []string{"public, max-age=3600"}}, {CC: []string{"Max-Age=60"}},
 			{CC: []string{"public"}, Expires: nil}, {CC: []string{"public", "max-age=100"}}}).Draw(t, "simple-fresh")
 	}
-	if !c.Ignore && c.Method == "GET" && c.Status == 200 && !c.Via416 && rapid.IntRange(0, 5).Draw(t, "stored-earlier") == 0 {
+	if !c.Ignore && rapid.IntRange(0, 4).Draw(t, "unstorable-first") == 0 {
+		c.UnstorableFirst = rapid.SampledFrom([]string{"no-store", "private", "max-age=0", "503", "404"}).Draw(t, "unstorable")
+	}
+	if !c.Ignore && c.UnstorableFirst == "" && c.Method == "GET" && c.Status == 200 && !c.Via416 && rapid.IntRange(0, 5).Draw(t, "stored-earlier") == 0 {
 		c.StoredEarlier = true
 		// make the forbidding directives frequent here: they are what the earlier period overrode
 		if rapid.Bool().Draw(t, "earlier-forbidding") {
